@@ -180,6 +180,8 @@ var nosaveMessages = map[string]struct{}{
 
 // saveState stores server configuration to the standard config file.
 func saveState(lastMessages map[string]interface{}) {
+	verifPoint("save:0")
+	defer verifPoint("save:end")
 
 	lastMessages["___1"] = "DASTARD configuration file. Written and read by DASTARD."
 	lastMessages["___2"] = "Human intervention by experts is permitted but not expected."
@@ -200,6 +202,7 @@ func saveState(lastMessages map[string]interface{}) {
 		log.Println("Could not store config file ", tmpname, ": ", err)
 		return
 	}
+	verifPoint("save:1")
 
 	// Move old config file to backup and new file to standard config name.
 	err = os.Remove(bakname)
@@ -207,14 +210,17 @@ func saveState(lastMessages map[string]interface{}) {
 		log.Println("Could not remove backup file ", bakname, " even though it exists: ", err)
 		return
 	}
+	verifPoint("save:2")
 	err = os.Rename(mainname, bakname)
 	if err != nil && !os.IsNotExist(err) {
 		log.Println("Could not save backup file: ", err)
 		return
 	}
+	verifPoint("save:3")
 	err = os.Rename(tmpname, mainname)
 	if err != nil {
 		log.Printf("Could not update dastard config file %s", mainname)
 	}
+	verifPoint("save:4")
 
 }
